@@ -108,6 +108,11 @@ static EbErrorType svt_dec_handle_ctor(EbDecHandle **   decHandleDblPtr,
     if (dec_handle_ptr == (EbDecHandle *)NULL)
         return EB_ErrorInsufficientResources;
     dec_handle_ptr->memory_map       = (EbMemoryMapEntry *)malloc(sizeof(EbMemoryMapEntry));
+    if (dec_handle_ptr->memory_map == (EbMemoryMapEntry *)NULL) {
+        free(dec_handle_ptr);
+        *decHandleDblPtr = (EbDecHandle *)NULL;
+        return EB_ErrorInsufficientResources;
+    }
     dec_handle_ptr->memory_map_index = 0;
     dec_handle_ptr->total_lib_memory = sizeof(EbComponentType) + sizeof(EbDecHandle) +
         sizeof(EbMemoryMapEntry);
@@ -119,6 +124,7 @@ static EbErrorType svt_dec_handle_ctor(EbDecHandle **   decHandleDblPtr,
     svt_dec_lib_malloc_count = 0;
 
     dec_handle_ptr->start_thread_process = EB_FALSE;
+    dec_handle_ptr->session_initialised  = EB_FALSE;
     memory_map_start_address             = NULL;
     memory_map_end_address               = NULL;
 
@@ -519,6 +525,9 @@ EB_API EbErrorType svt_av1_dec_set_parameter(EbComponentType *         svt_dec_c
         return EB_ErrorBadParameter;
 
     EbDecHandle *dec_handle_ptr = (EbDecHandle *)svt_dec_component->p_component_private;
+    // the configuration cannot be changed once the session is initialised
+    if (dec_handle_ptr == NULL || dec_handle_ptr->session_initialised)
+        return EB_ErrorBadParameter;
 
     dec_handle_ptr->dec_config        = *config_struct;
     dec_handle_ptr->is_16bit_pipeline = config_struct->is_16bit_pipeline;
@@ -532,6 +541,8 @@ EB_API EbErrorType svt_av1_dec_init(EbComponentType *svt_dec_component) {
         return EB_ErrorBadParameter;
 
     EbDecHandle *dec_handle_ptr = (EbDecHandle *)svt_dec_component->p_component_private;
+    if (dec_handle_ptr == NULL || dec_handle_ptr->session_initialised)
+        return EB_ErrorBadParameter;
 #ifdef ARCH_X86_64
     CPU_FLAGS cpu_flags = get_cpu_flags_to_use();
 #else
@@ -569,6 +580,7 @@ EB_API EbErrorType svt_av1_dec_init(EbComponentType *svt_dec_component) {
     if (return_error != EB_ErrorNone)
         return return_error;
 
+    dec_handle_ptr->session_initialised = EB_TRUE;
     return return_error;
 }
 
@@ -579,6 +591,8 @@ EB_API EbErrorType svt_av1_dec_frame(EbComponentType *svt_dec_component, const u
         return EB_ErrorBadParameter;
 
     EbDecHandle *dec_handle_ptr       = (EbDecHandle *)svt_dec_component->p_component_private;
+    if (dec_handle_ptr == NULL || !dec_handle_ptr->session_initialised || (data == NULL && data_size != 0))
+        return EB_ErrorBadParameter;
     uint8_t *    data_start           = (uint8_t *)data;
     uint8_t *    data_end             = (uint8_t *)data + data_size;
     dec_handle_ptr->seen_frame_header = 0;
@@ -629,6 +643,8 @@ EB_API EbErrorType svt_av1_dec_get_picture(EbComponentType *   svt_dec_component
         return EB_ErrorBadParameter;
 
     EbDecHandle *dec_handle_ptr = (EbDecHandle *)svt_dec_component->p_component_private;
+    if (dec_handle_ptr == NULL || !dec_handle_ptr->session_initialised || p_buffer == NULL)
+        return EB_ErrorBadParameter;
     /* Copy from recon pointer and return! TODO: Should remove the svt_memcpy! */
     if (0 == svt_dec_out_buf(dec_handle_ptr, p_buffer))
         return_error = EB_DecNoOutputPicture;
@@ -643,14 +659,18 @@ EB_API EbErrorType svt_av1_dec_deinit(EbComponentType *svt_dec_component) {
 
     if (!dec_handle_ptr)
         return EB_ErrorNone;
-    if (dec_handle_ptr->dec_config.threads > 1)
+    // the worker threads only exist once the first frame header has been seen
+    if (dec_handle_ptr->session_initialised && dec_handle_ptr->start_thread_process &&
+        dec_handle_ptr->dec_config.threads > 1)
         dec_sync_all_threads(dec_handle_ptr);
-    if (!svt_dec_memory_map)
+    dec_handle_ptr->session_initialised = EB_FALSE;
+    if (!svt_dec_memory_map || !dec_handle_ptr->memory_map_init_address)
         return EB_ErrorNone;
 
     // Loop through the ptr table and free all malloc'd pointers per channel
+    // (the entry at memory_map_init_address is the list terminator: it holds no allocation)
     EbMemoryMapEntry *memory_entry = svt_dec_memory_map;
-    do {
+    while (memory_entry != dec_handle_ptr->memory_map_init_address && memory_entry) {
         switch (memory_entry->ptr_type) {
         case EB_N_PTR: free(memory_entry->ptr); break;
         case EB_A_PTR:
@@ -668,8 +688,10 @@ EB_API EbErrorType svt_av1_dec_deinit(EbComponentType *svt_dec_component) {
         EbMemoryMapEntry *tmp_memory_entry = memory_entry;
         memory_entry                       = tmp_memory_entry->prev_entry;
         free(tmp_memory_entry);
-    } while (memory_entry != dec_handle_ptr->memory_map_init_address && memory_entry);
+    }
     free(dec_handle_ptr->memory_map_init_address);
+    dec_handle_ptr->memory_map_init_address = NULL;
+    svt_dec_memory_map                      = NULL;
     return return_error;
 }
 
